@@ -413,10 +413,21 @@ def spec_call(ex, node, st):
             if isinstance(v, Arr):
                 if v.view is not None:
                     v = ex.copy_array(st, v)
-                args.append(materialise(ex, st, st.heap[v.oid]))
+                term = st.heap[v.oid]
+                m = re.match(r"(\w+)\[", ty)
+                want = DTYPE_ALIASES.get(m.group(1), m.group(1)) if m else None
+                if want in ("f8", "f4") and v.dtype not in ("f8", "f4") and ex.fm.name != "U":
+                    # an integer array passed where the spec function takes reals: the value-converted array (as numba does
+                    # when a kernel written for float64 receives int16); the same source array always gives the same term
+                    ks = [z3.Int(f"k!cv{i}") for i in range(v.ndim)]
+                    term = z3.Lambda(ks, ex.tofloat(sel(term, *ks)))
+                args.append(materialise(ex, st, term))
             else:
                 args.append(_coerce(ex, v, ty))
         return f(*args)
+    if nm in ("median", "nanmedian") and nm not in st.env:
+        from . import libmodels
+        return libmodels.L_median(nm)(ex, st, node, ex.eval(node.args[0], st))
     if nm in ("sqrt", "log", "erf", "ndtri", "gammainc", "digamma", "pow", "cos", "log10") and nm not in st.env:
         args = [ex.tofloat(ex.eval(a, st)) for a in node.args]
         return ex.fm.call(nm, *args)
